@@ -147,6 +147,10 @@ func runC14(r *core.Run) {
 			return core.OK("panics", true)
 		})
 
+	core.Clause(r, "dst-contents", core.Opts{Rule: dstRule},
+		genDstCases([]string{"", "ATG", "atgGCAtggAAA", "ATGGCATGGAAATAGCCCGGGTTTACGTGA", "ATGNCA", "NNN", "ATGGCATGGAAN", "AT\x00", "ATGGCATGGAAATAGCCCGGGTTTACGTG-", "AT", "ATGG"}),
+		checkDstContract("Translate", sequtil.Translate, ref.Translate))
+
 	special := []byte{'A', 'C', 'G', 'T', 'a', 'c', 'g', 't', 0x00, 0x01, ' ', '-', 'N', 'n', 'U', 'u', '@', '[', '`', '{', 0x7f, 0x80, 0xc1, 0xe1, 0xff, '*', 'R', 'X', '0', '\n', '.', '?'}
 	r.Bound("codon-space", fmt.Sprintf("every codon over %d selected bytes (the 8 bases and 24 invalid ones incl. 0x00, N, U, 0x80.., 0xff) = %d codons, as the only codon, as the first of two and as the second of two%s", len(special), len(special)*len(special)*len(special), core.Pick(r, "", "; thorough: ALL 256^3 codons as the only codon")))
 	core.Clause(r, "codon-space", core.Opts{Rule: "whole codons, not single positions: Translate panics iff some byte of the codon is outside aAcCgGtT, else gives the reference amino acid; also with a valid codon before or after it; non-trivial = all"},
